@@ -58,18 +58,41 @@ def waitCycle (w : World) (from_ target : Nat) : Nat → Bool
     else if from_ == target then true
     else waitCycle w (w.session from_).waitsFor target fuel
 
+/-- nobody waits for a session that just released its locks -/
+def World.clearWaiters (w : World) (sid : Nat) : World :=
+  { w with sessions := w.sessions.map (fun s => if s.waitsFor == sid then { s with waitsFor := 0 } else s) }
+
 def commitTx (w : World) (sess : Session) : World :=
+  let w := w.clearWaiters sess.id
   let w := { w with active := w.active.filter (· != sess.xid) }
   let w := w.releaseXactLocks sess.id
   let w := w.setSession (endSession sess)
   w.vacuum
 
 def rollbackTx (w : World) (sess : Session) : World :=
+  let w := w.clearWaiters sess.id
   let w := w.undo sess.xid 0
   let w := { w with active := w.active.filter (· != sess.xid) }
   let w := w.releaseXactLocks sess.id
   let w := w.setSession (endSession sess)
   w.vacuum
+
+/-- A statement failed inside a transaction block. PostgreSQL aborts the current
+    (sub)transaction at once — its effects are undone and its locks released
+    before the client sends ROLLBACK — and the block stays in the aborted state.
+    With savepoints only the work since the latest savepoint is undone. -/
+def failTx (w : World) (sess : Session) : World :=
+  let w := w.clearWaiters sess.id
+  match sess.savepoints with
+  | sp :: _ =>
+    let w := w.undo sess.xid sp.cid
+    let w := { w with advisory := w.advisory.filter (fun l => !(l.sid == sess.id && l.xact && l.cid ≥ sp.cid)) }
+    w.setSession { sess with aborted := true, pending := none, waitsFor := 0 }
+  | [] =>
+    let w := w.undo sess.xid 0
+    let w := { w with active := w.active.filter (· != sess.xid) }
+    let w := w.releaseXactLocks sess.id
+    (w.setSession { sess with aborted := true, pending := none, waitsFor := 0 }).vacuum
 
 def tick (w : World) (now : Option Int) : World :=
   match now with
@@ -114,6 +137,7 @@ def execTop (w : World) (sid : Nat) (stmt : Stmt) (retry : Bool) (now : Option I
       match keepFrom sess.savepoints with
       | none => (w, .error (pgErr "3B001" s!"savepoint \"{name}\" does not exist"))
       | some (sp :: rest) =>
+        let w := w.clearWaiters sid
         let w := w.undo sess.xid sp.cid
         let w := { w with advisory := w.advisory.filter (fun l => !(l.sid == sid && l.xact && l.cid ≥ sp.cid)) }
         (w.setSession { sess with aborted := false, savepoints := sp :: rest, pending := none }, .ok {})
@@ -136,6 +160,8 @@ def execTop (w : World) (sid : Nat) (stmt : Stmt) (retry : Bool) (now : Option I
         let w2 := st'.w
         let sess2 := { (w2.session sid) with cid := st'.nextCid, pending := none, waitsFor := 0 }
         let w2 := w2.setSession sess2
+        -- an advisory unlock may have released what another session waits for
+        let w2 := if w2.advisory.length < wBefore.advisory.length then w2.clearWaiters sid else w2
         let w2 := if implicit then commitTx w2 sess2 else w2
         (w2, .ok { cols := r.rel.cols, rows := r.rel.rows, affected := r.affected })
       | .error (.blocked on bx bs) =>
@@ -148,7 +174,8 @@ def execTop (w : World) (sid : Nat) (stmt : Stmt) (retry : Bool) (now : Option I
           -- deadlock (documentation 13.3.4): this statement would close a cycle in the
           -- wait-for graph; PostgreSQL aborts one of the transactions involved — here
           -- the one whose wait completes the cycle
-          let w' := wBefore.setSession { sess with aborted := !implicit, pending := none, waitsFor := 0 }
+          let w' := if implicit then wBefore.setSession { sess with pending := none, waitsFor := 0 }
+                    else failTx wBefore sess
           (w', .error (pgErr "40P01" s!"deadlock detected: session {sid} waits for session {holder} ({on})"))
         else
           let w' := wBefore.setSession { sess with pending := some snap, waitsFor := holder }
@@ -157,19 +184,20 @@ def execTop (w : World) (sid : Nat) (stmt : Stmt) (retry : Bool) (now : Option I
         -- statement rolled back; sequences keep their advance
         let w' := { wBefore with seqs := st'.w.seqs }
         let w' := if implicit then w'.setSession { sess with pending := none, waitsFor := 0 }
-                  else w'.setSession { sess with aborted := true, pending := none, waitsFor := 0 }
+                  else failTx w' sess
         (w', .error e)
 
 /-- connection closed / dropped: roll back, release session-level locks -/
 def closeSession (w : World) (sid : Nat) : World :=
   let sess := w.session sid
   let w := if sess.xid != 0 then rollbackTx w sess else w
+  let w := w.clearWaiters sid
   { w with advisory := w.advisory.filter (·.sid != sid), sessions := w.sessions.filter (·.id != sid) }
 
 /-- fault injection: the running statement failed for an external reason -/
 def abortSession (w : World) (sid : Nat) : World :=
   let sess := w.session sid
-  if sess.explicit then w.setSession { sess with aborted := true, pending := none, waitsFor := 0 }
+  if sess.explicit then failTx w sess
   else w.setSession { sess with pending := none, waitsFor := 0 }
 
 /-! ## schema instantiation -/
@@ -178,12 +206,15 @@ def instantiateBucket (w : World) (sch : BucketSchema) (bucket : String) : World
   if w.buckets.contains bucket then w else
   let tables := sch.tables.map (fun t =>
     { t with name := bucket ++ "." ++ t.name,
-             triggers := t.triggers.map (fun tr => { tr with fname := bucket ++ "." ++ tr.fname }) })
+             triggers := t.triggers.map (fun tr => { tr with fname := bucket ++ "." ++ tr.fname }),
+             fks := t.fks.map (fun fk => { fk with refTable := bucket ++ "." ++ fk.refTable }) })
   { w with
     tables := w.tables ++ tables
     funcs := w.funcs ++ sch.funcs.map (fun f => (bucket ++ "." ++ f.name, f))
     seqs := w.seqs ++ sch.seqs.map (fun s => { name := bucket ++ "." ++ s })
-    types := { composites := sch.composites, enums := sch.enums }
+    -- composite types and enums are looked up by bare name (every bucket defines the same ones)
+    types := { composites := w.types.composites ++ sch.composites.filter (fun c => !(w.types.composites.any (·.1 == c.1))),
+               enums := w.types.enums ++ sch.enums.filter (fun e => !(w.types.enums.any (·.1 == e.1))) }
     buckets := w.buckets ++ [bucket] }
 
 /-! ## canonical dump -/
